@@ -585,6 +585,23 @@ func (fr *Frame) applyContract(ins ssa.Instruction, con *Contract, fn *ssa.Funct
 		env := &Env{fr: nil, vars: pvars, cur: nst, old: st, pkg: pkg}
 		nst = fr.pinUnchanged(env, en.Expr, nst)
 	}
+	// facts the caller's contract assumes about this call's outcome (not part of the callee's proved contract)
+	if root := fr.rootFrame(); root != nil && root.con != nil && root.con.CallEnsures != nil {
+		short := con.Key[strings.LastIndex(con.Key, ".")+1:]
+		for _, ce := range root.con.CallEnsures[short] {
+			merged := map[string]Val{}
+			for k2, v2 := range root.envBase {
+				merged[k2] = v2
+			}
+			for k2, v2 := range pvars {
+				merged[k2] = v2
+			}
+			env := &Env{fr: nil, vars: merged, cur: nst, old: st, pkg: pkg}
+			t := v.evalBool(env, ce.Expr)
+			fr.ctx.assert(implies(reach, t), "ASSUMED after call of "+con.Key+" (listed in evidence): "+ce.Text)
+			v.note(root.objPfx + ": assumed after call of " + short + ": " + ce.Text)
+		}
+	}
 	return res, nst
 }
 
